@@ -154,7 +154,7 @@ class MarketRun:
         o, mo = self.live[k % len(self.live)]
         # (via_copy: the cancel names an equal snapshot of the order instead of the submitted object -- orders compare by value,
         #  and pams' own tests cancel that way)
-        target = copy.deepcopy(o) if via_copy and mo.state == "rest" else o
+        target = copy.deepcopy(o) if via_copy and mo.state == "rest" and mo.oid % 2 == 1 else o
         if target is not o:
             self.flag("cancel_via_copy")
         was_resting = mo.state == "rest"
@@ -163,7 +163,12 @@ class MarketRun:
             self.flag("cancel_after_partial")
         if mo.state != "rest":
             self.flag("cancel_of_dead_order")
-        c = Cancel(order=target)
+        if via_copy and target is o and mo.state == "rest" and mo.oid % 2 == 0:
+            # the cancel comes with its (optional) time stamp already filled in; the book stamps it again
+            c = Cancel(order=target, placed_at=self.M.t if mo.oid % 4 == 0 else 0)
+            self.flag("cancel_pre_stamped")
+        else:
+            c = Cancel(order=target)
         log = _call(self.m._cancel_order, c)
         logs = self.new_logs()
         self.M.cancel(mo)
@@ -581,6 +586,16 @@ class MarketRun:
             if m.get_n_buy_orders() != M.nb or m.get_n_sell_orders() != M.ns:
                 self.fail("C08", "order_counts", f"after {where}: buy {m.get_n_buy_orders()[-3:]} sell {m.get_n_sell_orders()[-3:]} "
                                                  f"expected {M.nb[-3:]} {M.ns[-3:]}")
+            # the series getters asked for windows (newest first down to step 0, every other step, an explicit list)
+            if t >= 1 and self.hist and len(self.hist) % 3 == 0:
+                for gname in ("get_market_prices", "get_mid_prices", "get_last_executed_prices", "get_executed_volumes", "get_executed_total_prices",
+                              "get_n_buy_orders", "get_n_sell_orders", "get_fundamental_prices"):
+                    g = getattr(m, gname)
+                    full = g()
+                    for win in (range(t, -1, -1), range(0, t + 1, 2), [t, 0], range(t - 1, t + 1)):
+                        gw = g(win)
+                        if gw != [full[x] for x in win]:
+                            self.fail("C08", "series_window", f"{gname}({win!r}) returned {gw[:4]}..., the full series gives {[full[x] for x in win][:4]}...")
             want = M.vwap()
             got = m.get_vwap()
             if math.isnan(want):
